@@ -41,9 +41,9 @@ PRIOS = {"quick": [[], ["c", "a"]], "thorough": [[], ["c", "a"], ["p", "b"]]}
 REAL_PRIORITY = ["padding_data", "sequence_header"]
 
 PARAMS = {
-    "quick": {"single_nodes": 4, "pairs": 24000, "pair_nodes": 4, "shape_long": 4, "shape_req": 2, "real_pics": 4,
+    "quick": {"single_nodes": 4, "pairs": 60000, "pair_nodes": 4, "shape_long": 4, "shape_req": 2, "real_pics": 4,
               "frag_groups": [2, 3], "nshards": 16},
-    "thorough": {"single_nodes": 5, "pairs": 640000, "pair_nodes": 4, "shape_long": 5, "shape_req": 3, "real_pics": 4,
+    "thorough": {"single_nodes": 5, "pairs": 2400000, "pair_nodes": 5, "shape_long": 5, "shape_req": 3, "real_pics": 4,
                  "frag_groups": [2, 3, 5], "nshards": 64},
 }
 
@@ -52,7 +52,7 @@ RULE = (
     "syntax tree with 1..4 nodes (quick) / 1..5 (thorough) over leaves {a, b, c, '.'} rendered to text, every 4th also with "
     "a trailing ' $', x EVERY required list of length 0..3 over {a, b, c} x depth_limit {0, 1, 3}, and for patterns with a wildcard and "
     "depth_limit > 0 also with symbol_priority [c, a] (thorough also [p, b]) - exhaustive; (pairs) VERIF_SEED-sampled sets of two such patterns (<= 4 nodes "
-    "each) with a random required list, depth limit and priority - sampled; (shape) EVERY union of two symbol chains of "
+    "each; thorough <= 5) with a random required list, depth limit and priority - sampled; (shape) EVERY union of two symbol chains of "
     "1..2 and 1..4 (thorough 1..5) symbols over {a, b, c} x every required list of length 0..2 (thorough 0..3) x depth "
     "{0, 1, 3} - exhaustive, the shape in which consuming a required symbol "
     "at once can be wrong; (real) the generic sequence pattern + each distinct level pattern (11 levels, 4 texts) + none or one "
@@ -396,9 +396,9 @@ def floor(agg, tier):
     if c.get("shape_patterns", 0) != exp_shape:
         miss.append("shape stratum incomplete: %d of %d patterns" % (c.get("shape_patterns", 0), exp_shape))
     k = 1 if tier == "quick" else 8
-    for name, need in (("outcome:found", 50000 * k), ("outcome:impossible", 20000 * k), ("outcome:found_with_insertions", 20000 * k),
-                       ("reference:found", 50000 * k), ("reference:impossible", 20000 * k), ("sound_results", 50000 * k),
-                       ("results_with_wildcard", 1000 * k), ("calls:pairs", 15000 * k), ("calls:shape", 30000 * k),
+    for name, need in (("outcome:found", 30000 * k), ("outcome:impossible", 30000 * k), ("outcome:found_with_insertions", 10000 * k),
+                       ("reference:found", 30000 * k), ("reference:impossible", 30000 * k), ("sound_results", 30000 * k),
+                       ("results_with_wildcard", 300 * k), ("calls:pairs", 40000 * k), ("calls:shape", 30000 * k),
                        ("calls:real", 250), ("agree:real", 200)):
         if c.get(name, 0) < need:
             miss.append("%s = %d < %d" % (name, c.get(name, 0), need))
